@@ -80,6 +80,8 @@ TypeOf(name) ==
             \* list items that hold a STRUCT-valued (non-list) field: reading it re-enters the top-level struct path of the deserializer
             \* list items that collect their content in a `$value` list of their own, next to another list
       [] name = "F36" -> Struct(<<Fld(n_a, "elem", List(Struct(<<Fld(n_value, "value", List(CHOICE))>>))), Fld(n_b, "elem", List(NUM))>>)
+            \* two lists whose element names are prefixes of each other ( a / ab ), next to a third one
+      [] name = "F37" -> Struct(<<Fld(n_a, "elem", List(STR)), Fld(<<97, 98>>, "elem", List(STR)), Fld(n_d, "elem", List(NUM))>>)
       [] name = "F35" -> Struct(<<Fld(n_a, "elem", List(STR)), Fld(n_b, "elem", List(Struct(<<Fld(<<109>>, "elem", Struct(<<Fld(<<120>>, "elem", STR)>>))>>))), Fld(n_d, "elem", List(NUM))>>)
       [] name = "H01" -> Struct(<<Fld(n_m, "elem", [t |-> "map"])>>)
       [] name = "H07" -> Struct(<<Fld(n_value, "value", List(Opt(CHOICE)))>>)     \* items that may write nothing inside mixed content
@@ -106,6 +108,7 @@ RootBytes(name) ==
       [] name = "F26" -> <<70,50,54>>
       [] name = "F29" -> <<70,50,57>>
       [] name = "F35" -> <<70,51,53>>
+      [] name = "F37" -> <<70,51,55>>
       [] name = "F36" -> <<70,51,54>>
       [] name = "F30" -> <<70,51,48>>
       [] name = "F31" -> <<70,51,49>>
@@ -136,6 +139,9 @@ StrItem == { <<97>>, <<60>>, <<38>>, <<195, 169>>, <<34>>, <<97, 12, 98>>, <<97,
 \* In ATTRIBUTE position the serializer writes white space inside an item as character references and the deserializer splits
 \* before unescaping, so such items come back; in text position the text is unescaped first (the module documentation says
 \* list items never contain white space), so they are generated for attribute lists only.
+\* items of a TEXT list that end / start with TAB or CR: the serializer writes these as character references, which protects
+\* them from the trimming of the text (trimming happens before references are expanded)
+StrItemEdge == { <<97, 9>>, <<13, 97>> }
 StrItemWs == { <<97, 13, 98>>, <<32>>, <<9, 10>> }
 Nums == { <<48>>, <<55>>, <<52,50,57,52,57,54,55,50,57,53>> }
 
@@ -171,7 +177,7 @@ ValuesOf(name, Pl, mode) ==       \* mode "rt": the documented round-trippable d
       [] name = "F15" -> {O(<<<<<<64>> \o n_attribute, S(a)>>, <<n_value, A(xs)>>>>) :
                             a \in {<<>>, <<60>>}, xs \in {y \in Seqs(ChoiceVals({<<97>>, <<60>>}), 3) : mode = "all" \/ NoAdjacentText(y)}}
       [] name = "F16" -> {O(<<<<<<64>> \o n_l, A(xs)>>, <<n_text, A(ys)>>>>) :
-                            xs \in Seqs({Nm(b) : b \in Nums}, 2), ys \in Seqs({S(s) : s \in StrItem}, 2)}
+                            xs \in Seqs({Nm(b) : b \in Nums}, 2), ys \in Seqs({S(s) : s \in StrItem \cup StrItemEdge}, 2)}
       [] name = "F17" -> {O(<<<<n_text, S(a)>>>>) : a \in Pl}
       [] name = "F18" -> {O(<<<<n_field, [u |-> a]>>, <<<<64>> \o n_a, [u |-> b]>>>>) : a \in {n_Alpha, n_Beta}, b \in {n_Alpha, n_Beta}}
       [] name = "F19" ->
@@ -210,6 +216,8 @@ ValuesOf(name, Pl, mode) ==       \* mode "rt": the documented round-trippable d
       [] name = "F36" -> {O(<<<<n_a, A(xs)>>, <<n_b, A(zs)>>>>) :
                             xs \in Seqs({O(<<<<n_value, A(w)>>>>) : w \in {<<[u |-> n_One]>>, <<[u |-> n_Two], [u |-> n_One]>>}}, 2),
                             zs \in Seqs({Nm(<<55>>), Nm(<<49>>)}, 2)}
+      [] name = "F37" -> {O(<<<<n_a, A(xs)>>, <<<<97, 98>>, A(ys)>>, <<n_d, A(zs)>>>>) :
+                            xs \in Seqs({S(<<120>>)}, 2), ys \in Seqs({S(<<121>>), S(<<60>>)}, 2), zs \in Seqs({Nm(<<55>>)}, 1)}
       [] name = "F35" -> {O(<<<<n_a, A(xs)>>, <<n_b, A(ys)>>, <<n_d, A(zs)>>>>) :
                             xs \in Seqs({S(<<97>>)}, 2),
                             ys \in Seqs({O(<<<<<<109>>, O(<<<<<<120>>, S(w)>>>>)>>>>) : w \in {<<120>>, <<60>>}}, 2), zs \in Seqs({Nm(<<55>>)}, 2)}
@@ -238,5 +246,5 @@ ValuesOf(name, Pl, mode) ==       \* mode "rt": the documented round-trippable d
 \* root tags passed to the serializer (to_string_with_root); the default is the type name
 HostileRoots == { <<120, 46, 121>>, <<120, 45, 49>>, <<120, 194, 183>>, <<97, 47>>, <<97, 47, 98>>, <<>>, <<60>>, <<97, 32, 98>>, <<49, 97>>, <<97, 62>>, <<195, 169>>, <<120, 58, 121>>, <<45, 97>>, <<114>> }
 
-RTTypes == {"F01", "F02", "F03", "F04", "F05", "F07", "F08", "F11", "F15", "F16", "F17", "F18", "F19", "F20", "F22", "F23", "F24", "F25", "F26", "F27", "F28", "F29", "F30", "F31", "F32", "F33", "F34", "F35", "F36"}
+RTTypes == {"F01", "F02", "F03", "F04", "F05", "F07", "F08", "F11", "F15", "F16", "F17", "F18", "F19", "F20", "F22", "F23", "F24", "F25", "F26", "F27", "F28", "F29", "F30", "F31", "F32", "F33", "F34", "F35", "F36", "F37"}
 =============================================================================
